@@ -746,6 +746,269 @@ def _wrapping_decorators(tree) -> int:
     return count
 
 
+def _record_classes_of(tree) -> dict:
+    """private plain classes of the module that only hold a few fields: name ->
+    (init params, [(field, expr)], {method: FunctionDef})"""
+    found = {}
+    if not isinstance(tree, ast.Module):
+        return found
+    for stmt in tree.body:
+        if not (isinstance(stmt, ast.ClassDef) and stmt.name.startswith('_')
+                and not stmt.name.startswith('__') and not stmt.decorator_list
+                and not stmt.keywords and all(
+                    isinstance(b, ast.Name) and b.id == 'object' for b in stmt.bases)):
+            continue
+        init, methods, ok = None, {}, True
+        for item in stmt.body:
+            if isinstance(item, ast.Expr) and isinstance(item.value, ast.Constant):
+                continue
+            if isinstance(item, ast.Assign) and len(item.targets) == 1 and isinstance(
+                    item.targets[0], ast.Name) and item.targets[0].id == '__slots__':
+                continue
+            if isinstance(item, ast.FunctionDef) and not item.decorator_list and \
+                    item.args.args and not item.args.vararg and not item.args.kwarg and \
+                    not item.args.kwonlyargs and not item.args.posonlyargs and \
+                    not item.args.defaults:
+                if item.name == '__init__':
+                    init = item
+                elif item.name.startswith('__'):
+                    ok = False
+                else:
+                    methods[item.name] = item
+                continue
+            ok = False
+        if not ok or init is None:
+            continue
+        me = init.args.args[0].arg
+        fields = []
+        for item in init.body:
+            if isinstance(item, ast.Expr) and isinstance(item.value, ast.Constant):
+                continue
+            target = item.targets[0] if isinstance(item, ast.Assign) and \
+                len(item.targets) == 1 else (item.target if isinstance(item, ast.AnnAssign)
+                                             and item.value is not None else None)
+            if not (isinstance(target, ast.Attribute) and isinstance(target.value, ast.Name)
+                    and target.value.id == me):
+                ok = False
+                break
+            fields.append((target.attr, item.value))
+        names = [f for f, _v in fields]
+        if not ok or len(set(names)) != len(names):
+            continue
+        for method in methods.values():
+            body = [b for b in method.body
+                    if not (isinstance(b, ast.Expr) and isinstance(b.value, ast.Constant))]
+            for position, item in enumerate(body):
+                last = position == len(body) - 1
+                if isinstance(item, ast.Return) and last and item.value is not None:
+                    continue
+                if isinstance(item, (ast.Assign, ast.AugAssign, ast.AnnAssign, ast.Expr)) \
+                        and not any(isinstance(n, (ast.Yield, ast.YieldFrom, ast.Await,
+                                                   ast.Lambda, ast.NamedExpr))
+                                    for n in ast.walk(item)):
+                    continue
+                ok = False
+            self_name = method.args.args[0].arg
+            for node in ast.walk(method):
+                if isinstance(node, ast.Name) and node.id == self_name:
+                    pass
+            # `self` only ever as `self.<field>`
+            attrs = {id(n.value) for n in ast.walk(method) if isinstance(n, ast.Attribute)
+                     and isinstance(n.value, ast.Name) and n.value.id == self_name
+                     and n.attr in names}
+            if any(isinstance(n, ast.Name) and n.id == self_name and id(n) not in attrs
+                   for b in method.body for n in ast.walk(b)):
+                ok = False
+        if ok:
+            found[stmt.name] = ([a.arg for a in init.args.args[1:]], fields, methods, me)
+    return found
+
+
+def _scalar_replacement(tree) -> int:
+    """
+    ``v = _Record(a, b)`` bound once in a function to a private plain record class of the
+    module, where ``v`` is only ever used as ``v.<field>`` or through its small straight-line
+    methods called as a whole statement (``x = v.m()``, ``v.m()``, ``yield v.m()``,
+    ``return v.m()``): the record is replaced by one local per field (``v__field``) and the
+    methods are run in place.  The object never escapes, so nothing else can see it.
+    """
+    import copy
+    classes = _record_classes_of(tree)
+    if not classes:
+        return 0
+    count = 0
+    for fn in [n for n in ast.walk(tree)
+               if isinstance(n, (ast.FunctionDef, ast.AsyncFunctionDef))]:
+        own, nested = [], []
+        todo = list(fn.body)
+        while todo:
+            node = todo.pop()
+            if isinstance(node, (ast.FunctionDef, ast.AsyncFunctionDef, ast.ClassDef,
+                                 ast.Lambda)):
+                nested.append(node)
+                continue
+            own.append(node)
+            todo.extend(ast.iter_child_nodes(node))
+        made = [n for n in own if isinstance(n, ast.Assign) and len(n.targets) == 1
+                and isinstance(n.targets[0], ast.Name) and isinstance(n.value, ast.Call)
+                and isinstance(n.value.func, ast.Name) and n.value.func.id in classes]
+        for assign in made:
+            var = assign.targets[0].id
+            params, fields, methods, init_self = classes[assign.value.func.id]
+            call = assign.value
+            if call.keywords or len(call.args) != len(params) or any(
+                    isinstance(a, ast.Starred) for a in call.args):
+                continue
+            stores = [n for n in own if isinstance(n, ast.Name) and n.id == var
+                      and isinstance(n.ctx, (ast.Store, ast.Del))]
+            if len(stores) != 1 or any(isinstance(n, ast.Name) and n.id == var
+                                       for sub in nested for n in ast.walk(sub)):
+                continue
+            if any(a.arg == var for a in fn.args.args + fn.args.kwonlyargs):
+                continue
+            names = [f for f, _v in fields]
+            # classify every load of the variable
+            parents = {}
+            for node in own:
+                for child in ast.iter_child_nodes(node):
+                    parents[id(child)] = node
+            ok, calls = True, []
+            for node in own:
+                if not (isinstance(node, ast.Name) and node.id == var
+                        and isinstance(node.ctx, ast.Load)):
+                    continue
+                attr = parents.get(id(node))
+                if not (isinstance(attr, ast.Attribute) and attr.value is node):
+                    ok = False
+                    break
+                if attr.attr in names:
+                    continue
+                called = parents.get(id(attr))
+                if not (attr.attr in methods and isinstance(called, ast.Call)
+                        and called.func is attr and not called.keywords
+                        and len(called.args) == len(methods[attr.attr].args.args) - 1
+                        and all(isinstance(a, (ast.Name, ast.Constant))
+                                for a in called.args)):
+                    ok = False
+                    break
+                holder = parents.get(id(called))
+                if isinstance(holder, (ast.Yield, ast.Await)):
+                    holder = parents.get(id(holder))
+                    if not isinstance(holder, ast.Expr):
+                        ok = False
+                        break
+                if isinstance(holder, ast.Assign) and holder.value is called or \
+                        isinstance(holder, ast.Expr) or \
+                        isinstance(holder, ast.Return) and holder.value is called:
+                    calls.append((holder, called, methods[attr.attr]))
+                else:
+                    ok = False
+                    break
+            if not ok or len({id(h) for h, _c, _m in calls}) != len(calls):
+                continue
+            taken = {n.id for n in own if isinstance(n, ast.Name)} | {
+                a.arg for a in fn.args.args + fn.args.kwonlyargs}
+            if any('%s__%s' % (var, f) in taken for f in names):
+                continue
+
+            # a field that is set by the constructor only, from a name the function never
+            # re-binds, *is* that name
+            written = {n.attr for n in own if isinstance(n, ast.Attribute)
+                       and isinstance(n.value, ast.Name) and n.value.id == var
+                       and isinstance(n.ctx, (ast.Store, ast.Del))}
+            for _holder, _called, method in calls:
+                written |= {n.attr for n in ast.walk(method) if isinstance(n, ast.Attribute)
+                            and isinstance(n.ctx, (ast.Store, ast.Del))}
+            rebound = {n.id for n in own if isinstance(n, ast.Name)
+                       and isinstance(n.ctx, (ast.Store, ast.Del))}
+            passed = dict(zip(params, call.args))
+            constant = {}
+            for field, value in fields:
+                if field not in written and isinstance(value, ast.Name) and \
+                        value.id in passed and isinstance(passed[value.id], ast.Name) and \
+                        passed[value.id].id not in rebound:
+                    constant[field] = passed[value.id].id
+
+            def field_name(field):
+                return constant.get(field, '%s__%s' % (var, field))
+
+            class Fields(ast.NodeTransformer):
+                def __init__(self, owner, bound):
+                    self.owner, self.bound = owner, bound
+
+                def visit_Attribute(self, node):
+                    if isinstance(node.value, ast.Name) and node.value.id == self.owner \
+                            and node.attr in names:
+                        return ast.copy_location(
+                            ast.Name(id=field_name(node.attr), ctx=node.ctx), node)
+                    return self.generic_visit(node)
+
+                def visit_Name(self, node):
+                    if node.id in self.bound:
+                        if isinstance(node.ctx, ast.Load):
+                            return copy.deepcopy(self.bound[node.id])
+                        return ast.copy_location(ast.Name(
+                            id='%s__%s' % (var, node.id), ctx=node.ctx), node)
+                    return node
+
+            def at(node, where):
+                for sub in ast.walk(node):
+                    if isinstance(sub, (ast.expr, ast.stmt)):
+                        ast.copy_location(sub, where)
+                return ast.fix_missing_locations(node)
+
+            # the constructor
+            bound = dict(zip(params, call.args))
+            start = []
+            for field, value in fields:
+                if field in constant:
+                    continue
+                start.append(at(ast.Assign(
+                    targets=[ast.Name(id=field_name(field), ctx=ast.Store())],
+                    value=Fields(init_self, bound).visit(copy.deepcopy(value))), assign))
+            replacements = {id(assign): start}
+            for holder, called, method in calls:
+                me = method.args.args[0].arg
+                bound = dict(zip([a.arg for a in method.args.args[1:]], called.args))
+                local = {n.id for b in method.body for n in ast.walk(b)
+                         if isinstance(n, ast.Name) and isinstance(n.ctx, ast.Store)}
+                for name in local:
+                    bound.setdefault(name, ast.Name(id='%s__%s' % (var, name),
+                                                    ctx=ast.Load()))
+                body = [b for b in method.body
+                        if not (isinstance(b, ast.Expr) and isinstance(b.value, ast.Constant))]
+                out, result = [], ast.Constant(value=None)
+                for item in body:
+                    new = Fields(me, bound).visit(copy.deepcopy(item))
+                    if isinstance(new, ast.Return):
+                        result = new.value
+                    else:
+                        out.append(at(new, holder))
+                # the statement itself, with the call replaced by what the method returns
+                for node in ast.walk(holder):
+                    for field_, value in ast.iter_fields(node):
+                        if value is called:
+                            setattr(node, field_, at(result, holder))
+                replacements[id(holder)] = out + [holder]
+            for holder in [fn] + own:
+                for field_ in ('body', 'orelse', 'finalbody'):
+                    block = getattr(holder, field_, None)
+                    if isinstance(block, list) and block and isinstance(block[0], ast.stmt):
+                        fresh = []
+                        for stmt in block:
+                            fresh.extend(replacements.get(id(stmt), [stmt]))
+                        block[:] = fresh
+                for handler in getattr(holder, 'handlers', ()):
+                    fresh = []
+                    for stmt in handler.body:
+                        fresh.extend(replacements.get(id(stmt), [stmt]))
+                    handler.body[:] = fresh
+            fn.body = [Fields(var, {}).visit(stmt) for stmt in fn.body]
+            ast.fix_missing_locations(fn)
+            count += 1
+    return count
+
+
 def _statement_spellings(tree) -> int:
     """two spellings of container statements as the plainer one:
       X.pop(k)                 (result discarded)   ->  del X[k]
@@ -971,6 +1234,7 @@ def desugar(tree):
         applier.visit(tree)
         count += applier.count
     count += _wrapping_decorators(tree)
+    count += _scalar_replacement(tree)
     count += _local_getters(tree)
     count += _statement_spellings(tree)
     count += _fuse_generator_loops(tree)
